@@ -2221,15 +2221,31 @@ impl<'a, R: FileManager> FrontendCtx<'a, R> {
         match e {
             Expr::Tpl(s) => {
                 if as_const {
+                    // the literal text between the substitutions is part of the type, exactly as in
+                    // a template literal type
+                    if s.exprs.is_empty() {
+                        return Ok(Runtype::single_string_const(
+                            &s.quasis
+                                .iter()
+                                .map(|it| it.raw.to_string())
+                                .collect::<String>(),
+                        ));
+                    }
                     let mut acc: Vec<TplLitTypeItem> = vec![];
 
-                    for it in &s.exprs {
+                    for (idx, it) in s.exprs.iter().enumerate() {
+                        if let Some(quasi) = s.quasis.get(idx) {
+                            acc.push(TplLitTypeItem::StringConst(quasi.raw.to_string()));
+                        }
                         let ty = match it.as_ref() {
                             Expr::Call(_) => Ok(Runtype::string()),
                             _ => self.typeof_expr(it, as_const, file.clone()),
                         }?;
                         let res = self.runtype_to_tpl_lit(&it.span(), &ty, file.clone())?;
                         acc.push(res);
+                    }
+                    if let Some(quasi) = s.quasis.get(s.exprs.len()) {
+                        acc.push(TplLitTypeItem::StringConst(quasi.raw.to_string()));
                     }
 
                     Ok(Runtype::tpl_lit_type(TplLitType(acc)))
